@@ -19,8 +19,8 @@ PROP = {
         "flows mode: one user flow, one Retry processor; in-memory flow context",
     ],
     "units": [
-        {"pkg": "c17", "test": "TestFlowsRetryBound", "quick": 1500, "thorough": 8000, "shards": 16},
-        {"pkg": "c17", "test": "TestPolicyRetryBound", "quick": 6000, "thorough": 50000, "shards": 16},
+        {"pkg": "c17", "test": "TestFlowsRetryBound", "quick": 1500, "thorough": 20000, "shards": 16},
+        {"pkg": "c17", "test": "TestPolicyRetryBound", "quick": 6000, "thorough": 100000, "shards": 16},
         {"pkg": "c17", "test": "TestFixedHistories", "kind": "plain"},
         {"pkg": "c17", "test": "TestWitnessFlowsCounterSurvivesOutOfConditionResponse", "kind": "plain"},
         {"pkg": "c17", "test": "TestWitnessPolicyRetriedTransactionWithSequenceIDAsID", "kind": "plain"},
